@@ -29,10 +29,10 @@ const ModPath = "github.com/brocaar/lorawan"
 const ExpectedPackages = 11
 
 type Program struct {
-	Dir   string
-	Fset  *token.FileSet
-	Pkgs  map[string]*packages.Package // by import path (module packages only)
-	All   []*packages.Package
+	Dir    string
+	Fset   *token.FileSet
+	Pkgs   map[string]*packages.Package // by import path (module packages only)
+	All    []*packages.Package
 	GOARCH string
 
 	ssaOnce sync.Once
